@@ -334,6 +334,9 @@ fn universal(t: &mut Tape, ctx: &mut Ctx, maxlen: usize, maxcod: usize) -> Check
     let npairs = if b == 0 { 0 } else { t.range(0, maxlen) };
     let pairs: Vec<(usize, usize)> = (0..npairs).map(|_| (t.choice(b), t.choice(b))).collect();
     let (qv, k) = partition_of_pairs(b, &pairs);
+    // any numbering of the classes is a surjection with the same fibres (word 0: canonical)
+    let perm = t.permutation(k);
+    let qv: Vec<usize> = qv.iter().map(|&c| perm[c]).collect();
     let q = sv::ff(qv.clone(), k);
     // f : B -> T constant on fibres, then possibly broken at one point, possibly of wrong length
     let tcod = t.range(1, maxcod);
@@ -383,6 +386,7 @@ fn universal(t: &mut Tape, ctx: &mut Ctx, maxlen: usize, maxcod: usize) -> Check
         }
     }
     ctx.class_if(!constant, "no-universal-map");
+    ctx.class_if(k == b && b >= 2 && qv != (0..b).collect::<Vec<_>>(), "q-non-identity-bijection");
     if b >= 2 && k < b {
         ctx.nontrivial(&("universal", &qv, &f, tcod));
         if ctx.want_sample {
